@@ -5,12 +5,12 @@
 #   git -C /repo worktree remove --force /tmp/wt/SEED
 ID="$1"; shift
 PROPS="$@"
-WT=/tmp/wt/SEED
+WT=${SEED_WT:-/tmp/wt/SEED}
 [ -z "$PROPS" ] && PROPS=$(python3 -c "import json;print(' '.join(c['property_id'] for c in json.load(open('/verif/MANIFEST.json'))['checks']))")
 if [ ! -d $WT ]; then git -C /repo worktree add -q --detach $WT HEAD || exit 2; fi
 cd $WT && git checkout -q -- . && git checkout -q --detach $(git -C /repo rev-parse HEAD) && git apply /verif/seeded/$ID/patch.diff || { echo "$ID: patch failed"; exit 2; }
 cd /verif
-export GUARD_REPO=$WT VERIF_EVIDENCE_DIR=/tmp/wt/SEED_evidence
+export GUARD_REPO=$WT VERIF_EVIDENCE_DIR=${WT}_evidence
 mkdir -p $VERIF_EVIDENCE_DIR
 python3 -c "from engine import facts; facts.extract()" > /tmp/seed_${ID}_facts.log 2>&1 || { cd $WT && git checkout -q -- .; echo "$ID -> FACTS-ERROR"; exit 2; }
 echo $PROPS | tr ' ' '\n' | xargs -P 8 -I{} sh -c "./check {} > /tmp/seed_${ID}_{}.log 2>&1; echo \$? > /tmp/seed_${ID}_{}.rc"
